@@ -140,9 +140,29 @@ fn bz2(data: &[u8]) -> Vec<u8> {
 }
 
 fn cut(rng: &mut StdRng, data: &[u8], k: usize) -> Vec<Vec<u8>> {
-    // k chunks at random boundaries (chunks may be empty only if the data is shorter than k)
-    let mut cuts: Vec<usize> = (0 .. k - 1).map(|_| rng.gen_range(0 ..= data.len())).collect();
-    cuts.sort();
+    // k chunks at random boundaries (chunks may be empty only if the data is shorter than k); no chunk larger than a
+    // datagram a real server sends (D17) when k chunks of that size can hold the data
+    const CAP: usize = 1380;
+    let fits = data.len() <= k * 1200;
+    let mut cuts: Vec<usize> = Vec::new();
+    for attempt in 0 .. 40 {
+        cuts = (0 .. k - 1).map(|_| rng.gen_range(0 ..= data.len())).collect();
+        cuts.sort();
+        let mut prev = 0;
+        let mut ok = true;
+        for c in cuts.iter().copied().chain(std::iter::once(data.len())) {
+            ok &= c - prev <= CAP;
+            prev = c;
+        }
+        if ok || !fits {
+            break;
+        }
+        if attempt == 39 {
+            // even cut with a little jitter
+            let base = (data.len() + k - 1) / k;
+            cuts = (1 .. k).map(|i| (i * base + rng.gen_range(0 ..= (CAP - 1200).min(base / 8))).min(data.len())).collect();
+        }
+    }
     let mut out = Vec::new();
     let mut prev = 0;
     for c in cuts {
